@@ -245,6 +245,31 @@ def gen(rp, rw, tier):
             s, m = _value(rp, zone_=ez)
             pool.append(s)
             meta.append(m)
+    twins = None
+    if rp.random() < 0.2:
+        # values that are == and hash alike for the standard library yet render differently: one
+        # instant in two zones, or the two occurrences of one repeated wall time
+        if rp.random() < 0.5:
+            s1, m1 = _value(rp, zone_=rp.choice(["UTC", "Europe/Paris", "Asia/Tokyo"]))
+            z2 = rp.choice([z for z in ["America/New_York", "Asia/Kolkata", "Pacific/Auckland", "Europe/London"]])
+            f2, off2, fold2 = tzdb.render(z2, m1["inst"])
+            if off2 == int(off2) and int(off2) % 60 == 0:
+                s2 = {"$": "dt", "f": f2, "tz": z2, "fold": fold2 if len(tzdb.wall_to_instants(z2, f2)) == 2 else 1}
+                twins = [(s1, m1), (s2, {"f": f2, "off": off2, "zone": z2, "inst": m1["inst"]})]
+        else:
+            z = rp.choice(["Europe/Paris", "America/New_York", "Europe/London", "America/Sao_Paulo", "Pacific/Auckland"])
+            ov = [(t, o0, o1) for t, o0, o1 in tzdb.transitions(z) if o1 < o0]
+            if ov:
+                t, o0, o1 = rp.choice(ov)
+                w = tzdb.us_to_fields((t + o1) * US + rp.randrange(0, (o0 - o1) * US))
+                ts = tzdb.wall_to_instants(z, w)
+                if len(ts) == 2:
+                    twins = [({"$": "dt", "f": w, "tz": z, "fold": fo}, {"f": w, "off": tzdb.render(z, ts[fo])[1], "zone": z, "inst": ts[fo]})
+                             for fo in rp.sample([0, 1], 2)]
+        if twins:
+            for s_, m_ in twins:
+                pool.append(s_)
+                meta.append(m_)
     zone_clock = rw.choice(ZONES2)
     clock = gen_dt.pick_instant(rw, zone_clock, lo_year=1975, hi_year=2035)
     # bias "now" to the last/first moments of a day, month or year in the zone a client will ask for
@@ -309,6 +334,12 @@ def gen(rp, rw, tier):
                 if bad == text:
                     bad = text + "!"
                 ops.append(["pcall", "from_format", [bad, fmt], {"tz": gen_dt.tz_spec("UTC")}, "mismatch"])
+        if c == 0 and twins:
+            # the same format (and locale) applied to both twins
+            fmt = rp.choice(FULL_FORMATS[:2] + ["YYYY-MM-DD HH:mm:ss.SSSSSS Z zz X", _random_fmt(rp)])
+            kw = rp.choice([{}, {"locale": rp.choice(locales)}])
+            for j in (len(pool) - 2, len(pool) - 1):
+                ops.append(["call", {"$": "p", "i": j}, "format", [fmt], kw])
         actors.append({"name": "T%d" % (c + 1), "ops": ops})
     common.add_nemesis_and_barriers(rw, actors, nem, restart_p=0.15)
     return {"world": world, "pool": pool, "actors": actors, "pool_meta": meta, "step_cap": 40000,
